@@ -10,6 +10,10 @@ TEXT_FEATS = dict(div=True, mod=True, window=True, setops_all=False, any_sub=Fal
 
 CAST_TYPES = ["INT", "BIGINT", "SMALLINT", "DECIMAL(10, 2)", "VARCHAR(10)", "VARCHAR", "TEXT", "DOUBLE", "FLOAT",
               "DATE", "TIMESTAMP", "BOOLEAN", "CHAR(3)"]
+# used only where type-name idempotence is not the subject (serialisation, purity, structure): user-defined and nested types
+WIDE_TYPES = CAST_TYPES + ["my_schema.my_type", "my_enum", "ARRAY<INT>", "MAP<TEXT, INT>", "STRUCT<a INT, b TEXT>", "TIMESTAMPTZ", "INT[]",
+                           "NUMERIC(38, 0)", "INTERVAL", "JSON", "UUID", "BINARY", "TINYINT", "REAL"]
+_TYPES = {"list": CAST_TYPES}
 LITERALS = ["0", "1", "42", "1.5", "0.25", "10.0", "1e3", "2.5E-2", "'abc'", "''", "'it''s'", "'a b'", "'%x_'", "NULL", "TRUE",
             "FALSE", "'2020-01-02'", "-1", "123456789012"]
 
@@ -33,7 +37,7 @@ def extra_expr(rng, g, scope, d=2):
         return rng.choice(LITERALS) if rng.random() < 0.5 else col()
     sub = lambda: extra_expr(rng, g, scope, d - 1)
     if r < 0.4:
-        return f"CAST({sub()} AS {rng.choice(CAST_TYPES)})"
+        return f"CAST({sub()} AS {rng.choice(_TYPES['list'])})"
     if r < 0.5:
         return f"CASE {col()} WHEN {rng.choice(LITERALS)} THEN {sub()} ELSE {sub()} END"
     if r < 0.6:
@@ -52,8 +56,16 @@ def extra_expr(rng, g, scope, d=2):
     return f"{col()} BETWEEN {rng.choice(['0', '1'])} AND {rng.choice(['5', '10'])} AND {col()} IS NOT NULL"
 
 
-def gen_statement(rng, tables=None, feats=None):
+def gen_statement(rng, tables=None, feats=None, wide_types=False):
     """-> (sql, kind)"""
+    _TYPES["list"] = WIDE_TYPES if wide_types else CAST_TYPES
+    try:
+        return _gen_statement(rng, tables, feats)
+    finally:
+        _TYPES["list"] = CAST_TYPES
+
+
+def _gen_statement(rng, tables=None, feats=None):
     tables = tables or sqlgen.gen_schema(rng)
     f = dict(TEXT_FEATS)
     if feats:
@@ -92,7 +104,7 @@ def gen_statement(rng, tables=None, feats=None):
     if r < 0.92:
         defs = []
         for i in range(rng.randint(1, 4)):
-            ty = rng.choice(CAST_TYPES)
+            ty = rng.choice(_TYPES["list"])
             cons = rng.choice(["", "", " NOT NULL", " PRIMARY KEY" if i == 0 else "", " DEFAULT 0" if ty in ("INT", "BIGINT") else ""])
             defs.append(f"c{i} {ty}{cons}")
         if rng.random() < 0.3:
@@ -105,7 +117,7 @@ def gen_statement(rng, tables=None, feats=None):
         return f"CREATE {kind} v{rng.randint(1, 9)} AS {q.render('portable')}", "create-as"
     if r < 0.975:
         return f"DROP {rng.choice(['TABLE', 'VIEW'])} {rng.choice(['', 'IF EXISTS '])}{t.name}", "drop"
-    return f"ALTER TABLE {t.name} ADD COLUMN z{rng.randint(1, 9)} {rng.choice(CAST_TYPES)}", "alter-add"
+    return f"ALTER TABLE {t.name} ADD COLUMN z{rng.randint(1, 9)} {rng.choice(_TYPES['list'])}", "alter-add"
 
 
 # ---------------------------------------------------------------------------------
